@@ -652,6 +652,9 @@ impl<'a, P: Prefix> AsViewMut<'a, P, ()> for &'a mut PrefixSet<P> {
 pub struct TrieViewMut<'a, P, T> {
     table: &'a Table<P, T>,
     loc: ViewLoc<P>,
+    // The struct hands out `&'a mut` references to values. Make the auto traits (`Send`) behave as
+    // for `&'a mut` references, rather than as for the shared reference to the table.
+    _marker: std::marker::PhantomData<&'a mut T>,
 }
 
 impl<'a, P, T> TrieViewMut<'a, P, T> {
@@ -662,7 +665,11 @@ impl<'a, P, T> TrieViewMut<'a, P, T> {
     ///   contained within another `TrieViewMut` or `TrieView`. Also, you must guarantee that no
     ///   `TrieView` is contained within a `TrieViewMut`.
     unsafe fn new(table: &'a Table<P, T>, loc: ViewLoc<P>) -> Self {
-        Self { table, loc }
+        Self {
+            table,
+            loc,
+            _marker: std::marker::PhantomData,
+        }
     }
 }
 
